@@ -669,6 +669,38 @@ fn every_parser(acc: &mut Acc, s: &str) {
     }
 }
 
+/// a sink that accepts only a few bytes: rendering into it fails, and the same formatter rendered again into a real
+/// sink must then succeed with the full text (no latched failure, no leftover text)
+struct TinySink(usize);
+impl std::fmt::Write for TinySink {
+    fn write_str(&mut self, s: &str) -> std::fmt::Result {
+        if s.len() > self.0 {
+            return Err(std::fmt::Error);
+        }
+        self.0 -= s.len();
+        Ok(())
+    }
+}
+fn rerender_after_failure(acc: &mut Acc, dt: &DateTime<FixedOffset>) {
+    for fmt in ["%Y-%m-%dT%H:%M:%S%.f%:z", "%c", "%+", "%a %b %e %T %Y", "%D %r", "literal only"] {
+        let df = dt.format(fmt);
+        let full = df.to_string();
+        for cap in [0usize, 1, 4, 10] {
+            acc.transitions += 2;
+            let r = guard(|| {
+                let first = df.write_to(&mut TinySink(cap)).is_err() || full.len() <= cap;
+                let mut again = String::new();
+                let second = df.write_to(&mut again);
+                (first, second.is_ok(), again, df.to_string())
+            });
+            match r {
+                Ok((true, true, again, disp)) if again == full && disp == full => acc.hit(VALID),
+                other => acc.violation("DelayedFormat:re-render-after-a-failed-write", format!("[{:?}].format({:?}) written into a sink of {} bytes, then rendered again", dt, fmt, cap), format!("Err on the small sink, then {:?} twice", full), format!("{:?}", other)),
+            }
+        }
+    }
+}
+
 fn every_format(acc: &mut Acc, f: &str, dt: &DateTime<FixedOffset>) {
     note(&|| format!("format string {:?}: StrftimeItems iteration / parse / format / parse_from_str", f));
     enter();
@@ -798,6 +830,8 @@ fn main() {
             receivers_zoned(acc);
             // a zone whose skipped / repeated hours lie at the range ends: no invalid value, no panic
             chrono_mc::gfzone::range_end_safety(acc, VALID);
+            rerender_after_failure(acc, &dtf);
+            rerender_after_failure(acc, &dtm);
         } else if u == 6 {
             parsed_extremes(acc);
         } else if u < 7 + nsp {
